@@ -21,6 +21,9 @@ delimiter made a well-formed body within every limit fail with 500 (found here a
 from vf.engine import assume, cover
 from vf.query import Q
 from vf import stubs, stubs_c13
+from vf import instrument, stmtsched
+
+instrument.install("ombott")     # scheduling points in front of every ombott statement (used by the stmt/ family only)
 
 import ombott
 from ombott.ombott import DefaultConfig
@@ -501,6 +504,70 @@ def make_wsgi_raw_chunked(sizes, limited):
     return q
 
 
+# ---------------------------------------------------------------- two requests at once (another thread), any statement
+STMT_CASES = {
+    # name: (chunk sizes, max_body_size, max_memfile_size) of T0's chunked request; T1's request is the other column
+    "over": ((1, 0x10, 3), 9, 4),          # 20 bytes > limit 9: 413
+    "spool": ((2, 0x11), 40, 5),           # 19 bytes <= 40, > 5: served from a spooled body
+    "small": ((3,), 9, 8),                 # 3 bytes: served from memory
+}
+STMT_DATA = bytes(range(65, 65 + 26))
+
+
+def stmt_request(case, cl=False):
+    """-> prepare(): builds the application (registration is not part of the schedule: the rule parser is not re-entrant
+    and the statement is about requests) and returns the callable that serves the request"""
+    sizes, m, t = STMT_CASES[case]
+    data = STMT_DATA[:sum(sizes)]
+    enc = data if cl else chunked_encode(data, sizes)
+    extra = {"CONTENT_LENGTH": str(len(data))} if cl else {"HTTP_TRANSFER_ENCODING": "chunked"}
+
+    def prepare():
+        app = ombott.Ombott({"max_body_size": m, "max_memfile_size": t})
+        seen = []
+        app.route("/u", method="POST", callback=raw_handler(app, seen))
+        env = dict(extra)
+        env.update({"REQUEST_METHOD": "POST", "PATH_INFO": "/u", "wsgi.input": stubs.SymStream(len(enc), [], data=enc),
+                    "SERVER_NAME": "h", "SERVER_PORT": "80", "wsgi.url_scheme": "http",
+                    "wsgi.errors": type("E", (), {"write": staticmethod(lambda text: None)})})
+
+        def call():
+            got = []
+            out = b"".join(app(env, lambda st, hd, ei=None: got.append(st)))
+            assert len(got) == 1
+            return int(got[0][:3]), out, seen
+        return call
+    return prepare
+
+
+def make_stmt(case0, case1, cl1):
+    """T0's chunked request is served while, in front of statement k of the ombott code it executes, T1's complete request
+    (chunked or Content-Length framed, limits of its own) is served: both are answered by R1-R3 as when served alone"""
+    prep0, prep1 = stmt_request(case0), stmt_request(case1, cl1)
+    stubs.install_sim_threads()
+    n0 = stmtsched.count(prep0())
+
+    def judge_case(case, res):
+        sizes, m, t = STMT_CASES[case]
+        n = sum(sizes)
+        return judge_raw(res[0], res[1], res[2], STMT_DATA[:n], n, m, t)
+
+    def judge(k):
+        stubs.install_sim_threads()
+        r0, st = stmtsched.run(k, prep0(), prep1())
+        if not st.ran:
+            return "statement %d of %d not reached" % (k, n0)
+        cover("preempted")
+        r = judge_case(case0, r0)
+        if r:
+            return "another request (%s) served in front of statement %d of %d of this one (%s): %s" % (case1, k, n0, case0, r)
+        r = judge_case(case1, st.result)
+        if r:
+            return "the other thread's request (%s, served in front of statement %d of the %s request): %s" % (case1, k, case0, r)
+        return None
+    return stmtsched.bits_query(n0, judge), n0
+
+
 def judge_form(status, seen, want, n, m, t):
     """urlencoded / JSON body of n bytes read through request.forms / request.json (R1, R4)"""
     if m is not None and n > m:
@@ -678,6 +745,16 @@ def queries(tier):
     def add(qid, fn, bound, timeout, labels, family, config=None):
         out.append(Q(qid, fn, bound, timeout=timeout, expect_cover=labels, family=family, config=config))
 
+    for c0, c1, cl1 in ([("over", "small", False), ("spool", "over", False)] if not T else
+                        [("over", "small", False), ("spool", "over", False), ("small", "over", False), ("over", "spool", True),
+                         ("spool", "small", True), ("over", "over", False)]):
+        fn, n0 = make_stmt(c0, c1, cl1)
+        add("stmt/%s-%s%s" % (c0, c1, "-cl" if cl1 else ""), fn,
+            "T0 serves a chunked request (chunk sizes, max_body_size, max_memfile_size = %r) on an application of its own; in "
+            "front of statement k of the ombott code it executes (every k in 1..%d, scheduling points inserted from the current "
+            "source) simulated thread T1 serves a complete %s request %r on another application; LIFO, one preemption"
+            % (STMT_CASES[c0], n0, "Content-Length framed" if cl1 else "chunked", STMT_CASES[c1]),
+            400, ["preempted", "413", "200"], "stmt", {"t0": c0, "t1": c1, "statements": n0})
     ints = "all sizes/limits in [0,2^20], buffer=max_memfile_size t in [1,2^20]"
     for nfrag, trips in ([(1, 2), (2, 2), (3, 2)] if not T else [(1, 3), (2, 3), (3, 3)]):
         add("cl/int/limited/f%d" % nfrag, make_cl(nfrag, trips, True),
